@@ -814,6 +814,28 @@ func (k *c16Case) input() map[string]interface{} {
 	return m
 }
 
+// c16DataString renders invocation data for a report without relying on its MarshalJSON (an argument
+// that is not valid JSON makes json.Marshal of the whole report fail).
+func c16DataString(d *core.InvocationData) string {
+	if d == nil {
+		return "<nil>"
+	}
+	if b, err := json.Marshal(d); err == nil {
+		return string(b)
+	}
+	var sb strings.Builder
+	fmt.Fprintf(&sb, "call=%q mro_file=%q splitargs=%q args:", d.Call, d.Include, d.SplitArgs)
+	keys := make([]string, 0, len(d.Args))
+	for k := range d.Args {
+		keys = append(keys, k)
+	}
+	sort.Strings(keys)
+	for _, k := range keys {
+		fmt.Fprintf(&sb, " %s=%q", k, string(d.Args[k]))
+	}
+	return sb.String()
+}
+
 func c16SortedCopy(xs []string) []string {
 	o := append([]string{}, xs...)
 	sort.Strings(o)
@@ -1810,7 +1832,7 @@ func (x *c16Runner) multiFile(sig *c16Sig) {
 			}
 		}
 		if msg := c16CompareData(d1, sc.callable, bound, expect, expSplit, ""); msg != "" {
-			r.violate(Violation{Kind: "property", Key: "C16:include:text-to-json", What: msg, Input: in, Impl: d1})
+			r.violate(Violation{Kind: "property", Key: "C16:include:text-to-json", What: msg, Input: in, Impl: c16DataString(d1)})
 			continue
 		}
 		// the regenerated text compiles to a call of the same callable
